@@ -12,6 +12,7 @@ import (
 
 	ammtypes "github.com/elys-network/elys/x/amm/types"
 	ctypes "github.com/elys-network/elys/x/commitment/types"
+	estakingtypes "github.com/elys-network/elys/x/estaking/types"
 	lptypes "github.com/elys-network/elys/x/leveragelp/types"
 	mctypes "github.com/elys-network/elys/x/masterchef/types"
 	oracletypes "github.com/elys-network/elys/x/oracle/types"
@@ -88,7 +89,22 @@ func (g *G) Amount(label string, ref sdkmath.Int) sdkmath.Int {
 	if !ref.IsPositive() {
 		ref = sdkmath.NewInt(1_000_000)
 	}
-	switch g.Int(label+"/class", 0, 11) {
+	switch g.Int(label+"/class", 0, 12) {
+	case 12:
+		// exact simple fractions / multiples of the reference: the reserve ratio before/after becomes
+		// exactly 2, 3/2, 4/3, 1/2, 1/3 ... (special-cased values of the power / logarithm routines)
+		switch g.Int(label+"/frac", 0, 4) {
+		case 0:
+			return maxInt(ref.QuoRaw(2), sdkmath.OneInt())
+		case 1:
+			return maxInt(ref.QuoRaw(3), sdkmath.OneInt())
+		case 2:
+			return maxInt(ref.QuoRaw(4), sdkmath.OneInt())
+		case 3:
+			return ref.MulRaw(2)
+		default:
+			return ref.MulRaw(3)
+		}
 	case 0:
 		return sdkmath.NewInt(1)
 	case 1:
@@ -762,7 +778,7 @@ func genPerpClosePositions(g *G) *Op {
 // genPriceMove feeds a new price for one traded asset: random walk with occasional jumps.
 func genPriceMove(g *G) *Op {
 	assets := []string{"ATOM", "ELYS"}
-	if g.Int("stable", 0, 9) == 0 {
+	if g.Int("stable", 0, 4) == 0 {
 		assets = []string{"USDC", "USDT"}
 	}
 	a := assets[g.Pick("passet", len(assets))]
@@ -906,11 +922,19 @@ func (g *G) vestingTotal(addr string) sdkmath.Int {
 	for _, c := range g.S.Commitments {
 		if c.Creator == addr {
 			for _, v := range c.VestingTokens {
-				t = t.Add(v.TotalAmount.Sub(v.ClaimedAmount))
+				if v.Denom == ptypes.Elys {
+					t = t.Add(v.TotalAmount.Sub(v.ClaimedAmount))
+				}
 			}
 		}
 	}
 	return t
+}
+
+func genVestLiquid(g *G) *Op {
+	u := g.User()
+	amt := g.ModestAmount("vestliquid", sdkmath.NewInt(1_000_000_000))
+	return &Op{Signer: u, Kind: "commitment.vest_liquid", Msg: &ctypes.MsgVestLiquid{Creator: u.Addr.String(), Amount: amt, Denom: "uusdt"}}
 }
 
 func genCancelVest(g *G) *Op {
@@ -933,6 +957,40 @@ func genVestNow(g *G) *Op {
 	have := g.claimedOf(u.Addr.String(), ptypes.Eden)
 	amt := g.Amount("vestnow", have)
 	return &Op{Signer: u, Kind: "commitment.vest_now", Msg: &ctypes.MsgVestNow{Creator: u.Addr.String(), Amount: amt, Denom: ptypes.Eden}}
+}
+
+// ---------------------------------------------------------------- staking through commitment / estaking
+
+func genStake(g *G) *Op {
+	u := g.User()
+	asset := []string{ptypes.Elys, ptypes.Elys, ptypes.Eden, ptypes.EdenB}[g.Pick("stakeasset", 4)]
+	var amt sdkmath.Int
+	if asset == ptypes.Elys {
+		amt = g.ModestAmount("stake", sdkmath.NewInt(5_000_000_000))
+	} else {
+		amt = g.Amount("stake", g.claimedOf(u.Addr.String(), asset))
+	}
+	return &Op{Signer: u, Kind: "commitment.stake", Msg: &ctypes.MsgStake{Creator: u.Addr.String(), Amount: amt, Asset: asset, ValidatorAddress: g.W.ValAddr}}
+}
+
+func genUnstake(g *G) *Op {
+	u := g.User()
+	asset := []string{ptypes.Elys, ptypes.Eden, ptypes.EdenB}[g.Pick("unstakeasset", 3)]
+	var amt sdkmath.Int
+	if asset == ptypes.Elys {
+		amt = g.ModestAmount("unstake", sdkmath.NewInt(5_000_000_000))
+	} else {
+		amt = g.Amount("unstake", g.S.CommittedOf(u.Addr.String(), asset))
+	}
+	return &Op{Signer: u, Kind: "commitment.unstake", Msg: &ctypes.MsgUnstake{Creator: u.Addr.String(), Amount: amt, Asset: asset, ValidatorAddress: g.W.ValAddr}}
+}
+
+func genWithdrawAllRewards(g *G) *Op {
+	u := g.User()
+	if g.Bool("elysonly") {
+		return &Op{Signer: u, Kind: "estaking.withdraw_elys_rewards", Msg: &estakingtypes.MsgWithdrawElysStakingRewards{DelegatorAddress: u.Addr.String()}}
+	}
+	return &Op{Signer: u, Kind: "estaking.withdraw_all_rewards", Msg: &estakingtypes.MsgWithdrawAllRewards{DelegatorAddress: u.Addr.String()}}
 }
 
 // ---------------------------------------------------------------- tradeshield
@@ -1122,6 +1180,7 @@ var AllOps = map[string]func(*G) *Op{
 	"masterchef.claim": genMCClaim, "masterchef.add_external_incentive": genAddExternalIncentive,
 	"commitment.commit_claimed": genCommitClaimed, "commitment.uncommit": genUncommit, "commitment.vest": genVest,
 	"commitment.cancel_vest": genCancelVest, "commitment.claim_vesting": genClaimVesting, "commitment.vest_now": genVestNow,
+	"commitment.vest_liquid": genVestLiquid, "commitment.stake": genStake, "commitment.unstake": genUnstake, "estaking.withdraw_rewards": genWithdrawAllRewards,
 	"tradeshield.create_spot": genSpotOrderCreate, "tradeshield.update_spot": genSpotOrderUpdate, "tradeshield.cancel_spot": genSpotOrderCancel,
 	"tradeshield.create_perp_open": genPerpOrderCreate, "tradeshield.create_perp_close": genPerpCloseOrderCreate,
 	"tradeshield.update_perp": genPerpOrderUpdate, "tradeshield.cancel_perp": genPerpOrderCancel, "tradeshield.execute": genExecuteOrders,
